@@ -90,6 +90,10 @@ func gwRunChild(args []string, instrumented bool) string {
 		gwRaceBuild.Do(func() {
 			src := filepath.Join(filepath.Dir(exe), "..", "harness")
 			out := filepath.Join(filepath.Dir(exe), "harness-race")
+			if _, err := os.Stat(out); err == nil { // built by the orchestrator for this run
+				gwRaceBin = out
+				return
+			}
 			c := exec.Command("go", "build", "-race", "-tags", "verif", "-o", out, ".")
 			c.Dir = src
 			c.Env = append(os.Environ(), "CGO_ENABLED=1", "GOFLAGS=-mod=mod", "GOPROXY=off", "GOSUMDB=off", "GOTOOLCHAIN=local")
@@ -979,9 +983,10 @@ func genC19(r *Rng, n int, tier string) {
 	}
 	// (6) Bind* from a second goroutine during a burst (child process; thorough: also race-instrumented)
 	add("mode=bin", "init=full", "bind=b1,t1,p2", "fb=0", "race=1", "seg=0", "hist=B500.1;ep2.1;B500.1")
+	add("mode=bin", "init=full", "bind=b1,t1,p2", "fb=0", "race=2", "seg=0", "hist=B300.1;ep2.1")
 	if thorough {
 		add("mode=asc", "init=full", "bind=b1,t1,p2", "fb=0", "race=1", "seg=0", "hist=B500.1;ep2.1;B500.1")
-		add("mode=bin", "init=full", "bind=b1,t1,p2", "fb=0", "race=2", "seg=0", "hist=B300.1;ep2.1")
+		add("mode=asc", "init=full", "bind=b1,t1,p2", "fb=0", "race=2", "seg=0", "hist=B300.1;ep2.1")
 	}
 	gwRunIsolated(recs, 32)
 }
